@@ -499,6 +499,17 @@ func (v *onsView) opPurchaseOnSale() []Tx {
 }
 
 func (v *onsView) opPurchaseExpired() []Tx {
+	// an expired name that still carries its sale flag, offered the old asking price where that is below the
+	// base price (the price of an expired name is the base price, whatever its former owner once asked)
+	if v.c.Rng.Intn(3) == 0 {
+		if n, d := v.pick(v.s.Names, func(n string, d *ons.Domain) bool {
+			return v.purchasableExpired(d) && d.OnSaleFlag && d.SalePrice != nil && d.SalePrice.BigInt().Sign() > 0 && d.SalePrice.BigInt().Cmp(v.base) < 0
+		}); d != nil {
+			b := v.anyUser()
+			off := new(big.Int).Add(d.SalePrice.BigInt(), big.NewInt(v.c.Rng.Int63n(3)))
+			return []Tx{v.mkPurchase(n, b, b.Addr, core.OLT(off), "DOMAIN_PURCHASE/expired-on-sale-asking-price")}
+		}
+	}
 	n, d := v.pick(v.s.Names, func(n string, d *ons.Domain) bool { return v.purchasableExpired(d) })
 	if d == nil {
 		return nil
@@ -917,6 +928,14 @@ func (v *onsView) opHostile() []Tx {
 			}
 			a, l := v.badAmount()
 			return []Tx{v.mkPurchase(n, b, b.Addr, a, "DOMAIN_PURCHASE/"+l)}
+		}
+		// an expired name that still carries its sale flag, offered the old asking price (below the base price)
+		if n, d := v.pick(v.s.Names, func(n string, d *ons.Domain) bool {
+			return v.purchasableExpired(d) && d.OnSaleFlag && d.SalePrice != nil && d.SalePrice.BigInt().Sign() > 0 && d.SalePrice.BigInt().Cmp(v.base) < 0
+		}); d != nil && c.Rng.Intn(3) > 0 {
+			b := v.anyUser()
+			off := new(big.Int).Add(d.SalePrice.BigInt(), big.NewInt(c.Rng.Int63n(3)))
+			return []Tx{v.mkPurchase(n, b, b.Addr, core.OLT(off), "DOMAIN_PURCHASE/expired-on-sale-asking-price")}
 		}
 		n, d := v.pick(v.s.Names, func(n string, d *ons.Domain) bool { return v.purchasableExpired(d) })
 		if d == nil {
